@@ -188,8 +188,12 @@ func C16Cases(p *spec.Program, seed uint64, tier string, nSplits int) ([]*Case, 
 			run.Note = fmt.Sprintf("seeded split %d", i)
 			add("channel-equivalence/split", ref, run, Expect{Kind: "identical-file"})
 		}
-		// precedence
+		// precedence (an option the configuration leaves unset cannot be carried by the CLI — an empty
+		// parameter means "not given" — so there is nothing to take precedence)
 		for _, d := range spec.DualOptions {
+			if _, _, _, set := cfg.DualValue(d.Name); !set && d.Name != "sort" {
+				continue
+			}
 			add("cli-precedence:"+d.Name, ref, precedenceRun(p, cfg, d.Name), Expect{Kind: "identical-file"})
 		}
 	}
